@@ -12,8 +12,8 @@
 
    An agent is alive iff some strong reference exists: alive a := a in reg \/ a in ext \/ a in cur.
    A callback may raise (Raise: the loop is left at once, the exception travels through every running
-   activation) and may start an activation itself (Nested; the agents called there run a second,
-   level-0 script).
+   activation) and may start an activation itself (Nested; TryNested when it catches what comes out
+   of it), to any depth: exN scs, one script per nesting level.
    do/map:      for agentref in self._agents.keyrefs(): if (agent := agentref()) is not None: call
    shuffle_do:  weakrefs = list(keyrefs()); self.random.shuffle(weakrefs); same loop over weakrefs
    The permutation chosen by random.shuffle is an input (`perm`), checked to be a permutation of the
